@@ -443,7 +443,7 @@ fn expand<T: Smp>(cx: &mut Ctx<T>, line: &str, m: &HashMap<String, String>) -> S
     }
     let mut out = Vec::new();
     for tok in line.split(' ') {
-        if tok.starts_with("inlen=") || tok.starts_with("outlen=") || tok.starts_with("sig=") || tok.starts_with("adv=") {
+        if tok.starts_with("inlen=") || tok.starts_with("outlen=") || tok.starts_with("sig=") || tok.starts_with("adv=") || tok.starts_with("chan=") {
             continue;
         }
         out.push(tok.to_string());
@@ -457,34 +457,37 @@ fn expand<T: Smp>(cx: &mut Ctx<T>, line: &str, m: &HashMap<String, String>) -> S
             let sig = m.get("sig").map(|s| s.as_str()).unwrap_or("zero");
             let specs: Vec<&str> = spec.split(';').collect();
             let mut chs = Vec::new();
-            for (c, sp) in specs.iter().enumerate() {
+            let chan_off: usize = m.get("chan").map(|v| v.parse().unwrap()).unwrap_or(0);
+            for (c0, sp) in specs.iter().enumerate() {
                 let n = resolve_len(sp, inext, imax);
+                // signal channel index (a single-channel twin can be fed channel k's signal)
+                let c = c0 + chan_off;
                 // `pad@<len>@<signal>`: the signal for the first <len> frames, zeros afterwards
                 let mut v = if let Some(rest) = sig.strip_prefix("pad@") {
                     let mut it = rest.splitn(2, '@');
                     let keeps: Vec<&str> = it.next().unwrap().split('|').collect();
-                    let keep = resolve_len(keeps[c.min(keeps.len() - 1)], inext, imax);
+                    let keep = resolve_len(keeps[c0.min(keeps.len() - 1)], inext, imax);
                     let inner = it.next().unwrap();
-                    let mut w = gen_signal::<T>(inner, c, cx.fed[c], n);
+                    let mut w = gen_signal::<T>(inner, c, cx.fed[c0], n);
                     for x in w.iter_mut().skip(keep) {
                         *x = T::zero();
                     }
                     w
                 } else {
-                    gen_signal::<T>(sig, c, cx.fed[c], n)
+                    gen_signal::<T>(sig, c, cx.fed[c0], n)
                 };
                 if n == 0 {
                     v.clear();
                 }
                 // the stream advances by what the resampler consumes (at most what is supplied),
                 // and only if the call succeeds
-                if cx.pending.len() <= c {
-                    cx.pending.resize(c + 1, 0);
+                if cx.pending.len() <= c0 {
+                    cx.pending.resize(c0 + 1, 0);
                 }
-                cx.pending[c] = match m.get("adv") {
+                cx.pending[c0] = match m.get("adv") {
                     Some(a) => {
                         let advs: Vec<&str> = a.split('|').collect();
-                        resolve_len(advs[c.min(advs.len() - 1)], inext, imax).min(inext) as u64
+                        resolve_len(advs[c0.min(advs.len() - 1)], inext, imax).min(inext) as u64
                     }
                     None => n.min(inext) as u64,
                 };
@@ -817,6 +820,12 @@ fn do_op<T: Smp>(cx: &mut Ctx<T>, cmd: &str, line: &str, m: &HashMap<String, Str
         }
         Ok(())
     }));
+    if cmd == "RESET" {
+        // the generated signals are functions of the stream position: a reset starts a new stream
+        for f in cx.fed.iter_mut() {
+            *f = 0;
+        }
+    }
     if succeeded.get() {
         for (c, n) in cx.pending.iter().enumerate() {
             if c < cx.fed.len() {
